@@ -8,7 +8,7 @@ import (
 
 // which: 0 ApplyFunc1 (fn(v) = v + c), 1 Scale, 2 AddTo
 func c02arrayop_ELEMTYPE(rank int, which int) {
-	fullRoot := rank >= 2 && !vsym.Thorough()
+	fullRoot := rank >= 2 && !c01deep_ELEMTYPE()
 	dr, dn, doff := c01rootx_ELEMTYPE(rank, fullRoot)
 	dloc, dims, dstep := c01slice_ELEMTYPE("d", dn)
 	dest := dr.Slice(dloc, dims, dstep)
